@@ -179,3 +179,97 @@ def used_in_bodies(text, p):
       body = st[st.index(':-'):]
       n += len(re.findall(r'(?<![A-Za-z0-9_])%s\s*\(' % re.escape(p), body))
   return n
+
+
+# ---------------------------------------------------------------------------------------------------
+# Meaning-preserving rewrites (relational contract "same spec comprehension"), used by C01 / C02 / C11.
+
+def _rules(text):
+  """(index, head, body) of the statements that are rules with a body (annotations and functor
+  applications are left alone)."""
+  sts = statements(text)
+  out = []
+  for k, st in enumerate(sts):
+    if st.startswith('@') or ':=' in st or ':-' not in st:
+      continue
+    i = st.index(':-')
+    out.append((k, st[:i + 2], st[i + 2:].rstrip(';')))
+  return sts, out
+
+
+def layer_tables(text, tables):
+  """Every extensional table is read through one more (injectible) predicate: T_lyr(a..) :- T(a..)."""
+  sts = statements(text)
+  if not tables:
+    return None
+  new = []
+  for st in sts:
+    for t in tables:
+      st = re.sub(r'(?<![A-Za-z0-9_"])%s\(' % re.escape(t), t + '_lyr(', st)
+    new.append(st)
+  if new == sts:
+    return None
+  for t, n in sorted(tables.items()):
+    args = ', '.join('a%d' % i for i in range(n))
+    new.append('%s_lyr(%s) :- %s(%s);' % (t, args, t, args))
+  return '\n'.join(new)
+
+
+def const_via_function(text):
+  """Integer literals of rule bodies become calls of constant functions Kc<k>() = k."""
+  sts, rules = _rules(text)
+  used = set()
+  changed = False
+  for k, head, body in rules:
+    def sub(m):
+      # not inside a string literal
+      if body.count('"', 0, m.start()) % 2 == 1:
+        return m.group(0)
+      used.add(m.group(0))
+      return 'Kc%s()' % m.group(0)
+    nb = re.sub(r'(?<![\w."\'\[@-])\d+(?![\w."\'\]])', sub, body)
+    if nb != body:
+      changed = True
+      sts[k] = head + nb + ';'
+  if not changed:
+    return None
+  return '\n'.join(sts + ['Kc%s() = %s;' % (c, c) for c in sorted(used)])
+
+
+def paren_group(text):
+  """The first two top-level conjuncts of every rule body (without a top-level disjunction) in parentheses."""
+  sts, rules = _rules(text)
+  changed = False
+  for k, head, body in rules:
+    parts = split_top(body, ',')
+    if len(parts) < 2 or len(split_top(body, '|')) > 1:
+      continue
+    sts[k] = head + ' (' + parts[0].strip() + ', ' + parts[1].strip() + ')' + ''.join(',' + p for p in parts[2:]) + ';'
+    changed = True
+  return '\n'.join(sts) if changed else None
+
+
+def double_negation_guard(text, tables):
+  """After a positive literal T(args) of an extensional table the conjunct ~(~T(args)) is true: appending it
+  changes nothing."""
+  sts, rules = _rules(text)
+  changed = False
+  for k, head, body in rules:
+    if len(split_top(body, '|')) > 1:
+      continue
+    for p in split_top(body, ','):
+      m = re.match(r'^\s*([A-Z][A-Za-z0-9_]*)\(([a-z0-9_, ]*)\)\s*$', p)
+      if m and m.group(1) in tables:
+        sts[k] = head + body + ', ~(~' + p.strip() + ');'
+        changed = True
+        break
+  return '\n'.join(sts) if changed else None
+
+
+def rewrites(text, tables):
+  out = []
+  for name, t in (('layer-tables', layer_tables(text, tables)), ('const-via-function', const_via_function(text)),
+                  ('paren-group', paren_group(text)), ('double-negation-guard', double_negation_guard(text, tables))):
+    if t is not None:
+      out.append((name, t))
+  return out
